@@ -210,3 +210,75 @@ def rho_expr(A, f, sigs, tau, pred=None):
 def _is_pointwise(f):
     return f[0] in ('var', 'const') or ((f[0] in POINTWISE1 or f[0] in POINTWISE2)
                                         and all(_is_pointwise(c) for c in f[1:] if isinstance(c, tuple)))
+
+
+# ---- Boolean dense-time semantics (restricted like rho_expr) ---------------------------------------
+def bwindow(A, bsig, lo, hi, exists):
+    """bsig: [[s_i, Bool_i]]; exists/forall over the segments meeting [lo,hi]"""
+    parts = []
+    for s, e, v in segs(bsig):
+        cond = []
+        if hi is not None:
+            cond.append(A.le(s, hi))
+        if lo is not None and e is not None:
+            cond.append(A.lt(lo, e))
+        meets = A.And(*cond)
+        parts.append(A.And(meets, v) if exists else A.Or(A.Not(meets), v))
+    return A.Or(*parts) if exists else A.And(*parts)
+
+
+def bval(A, bsig, tau):
+    v = bsig[-1][1]
+    for i in range(len(bsig) - 2, -1, -1):
+        v = A.bite(A.lt(tau, bsig[i + 1][0]), bsig[i][1], v)
+    return v
+
+
+def bpoint(A, f, vals):
+    k = f[0]
+    if k in ('leq', 'lt', 'geq', 'gt', 'eq', 'neq'):
+        p, q = point(A, f[1], vals), point(A, f[2], vals)
+        if k == 'leq': return A.le(p, q)
+        if k == 'lt': return A.lt(p, q)
+        if k == 'geq': return A.le(q, p)
+        if k == 'gt': return A.lt(q, p)
+        if k == 'eq': return A.eq(p, q)
+        return A.Not(A.eq(p, q))
+    if k == 'not': return A.Not(bpoint(A, f[1], vals))
+    if k == 'and': return A.And(bpoint(A, f[1], vals), bpoint(A, f[2], vals))
+    if k == 'or': return A.Or(bpoint(A, f[1], vals), bpoint(A, f[2], vals))
+    if k == 'implies': return A.Or(A.Not(bpoint(A, f[1], vals)), bpoint(A, f[2], vals))
+    raise KeyError(k)
+
+
+def _is_bpointwise(f):
+    k = f[0]
+    if k in ('leq', 'lt', 'geq', 'gt', 'eq', 'neq'):
+        return _is_pointwise(f[1]) and _is_pointwise(f[2])
+    return k in ('not', 'and', 'or', 'implies') and all(_is_bpointwise(c) for c in f[1:] if isinstance(c, tuple))
+
+
+def sat_expr(A, f, sigs, tau):
+    """Boolean dense-time satisfaction at tau; temporal operators over Boolean-pointwise one-variable operands"""
+    k = f[0]
+    if _is_bpointwise(f):
+        return bpoint(A, f, {v: val(A, sigs[v], tau) for v in _vars(f)})
+    if k == 'not': return A.Not(sat_expr(A, f[1], sigs, tau))
+    if k == 'and': return A.And(sat_expr(A, f[1], sigs, tau), sat_expr(A, f[2], sigs, tau))
+    if k == 'or': return A.Or(sat_expr(A, f[1], sigs, tau), sat_expr(A, f[2], sigs, tau))
+    if k == 'implies': return A.Or(A.Not(sat_expr(A, f[1], sigs, tau)), sat_expr(A, f[2], sigs, tau))
+    vs = sorted(_vars(f[1]))
+    if len(vs) != 1 or not _is_bpointwise(f[1]):
+        raise ValueError('sat_expr: temporal operand must be Boolean-pointwise over one variable')
+    bs = [[t, bpoint(A, f[1], {vs[0]: v})] for t, v in sigs[vs[0]]]
+    bounds = [c for c in f[1:] if isinstance(c, int)]
+    a, b = (bounds + [None, None])[:2]
+    if k == 'once': return bwindow(A, bs, None, tau, True)
+    if k == 'historically': return bwindow(A, bs, None, tau, False)
+    if k == 'eventually': return bwindow(A, bs, tau, None, True)
+    if k == 'always': return bwindow(A, bs, tau, None, False)
+    if k == 'once_t': return bwindow(A, bs, tau - b, tau - a, True)
+    if k == 'historically_t': return bwindow(A, bs, tau - b, tau - a, False)
+    if k == 'eventually_t': return bwindow(A, bs, tau + a, tau + b, True)
+    if k == 'always_t': return bwindow(A, bs, tau + a, tau + b, False)
+    raise KeyError(k)
